@@ -118,6 +118,90 @@ func genAtom(r *rng) string {
 	}
 }
 
+// genSameLabel builds nested &&/|| expressions whose operands all restrict the SAME label with value lists written
+// in arbitrary (mostly non-ascending) order: `==` alternatives, `in {...}` (with repeats), ORs as non-first operands of
+// ANDs, ORs inside ORs.  This is where the value slices of the restriction summaries are intersected and united.
+func genSameLabel(r *rng, d int) string {
+	k := r.pick(keys)
+	target := r.pick(vals) // most operands admit this value, so the intersection is usually non-empty
+	var valAtom func() string
+	valAtom = func() string {
+		v := r.pick(vals)
+		if r.chance(60) {
+			v = target
+		}
+		switch r.intn(10) {
+		case 0:
+			return fmt.Sprintf("has(%s)", k)
+		case 1, 2, 3:
+			n := 1 + r.intn(4)
+			xs := []string{`"` + v + `"`}
+			for i := 1; i < n; i++ {
+				xs = append(xs, `"`+r.pick(vals)+`"`)
+			}
+			// shuffle, repeats allowed
+			for i := len(xs) - 1; i > 0; i-- {
+				j := r.intn(i + 1)
+				xs[i], xs[j] = xs[j], xs[i]
+			}
+			return fmt.Sprintf("%s in {%s}", k, strings.Join(xs, ", "))
+		default:
+			return fmt.Sprintf(`%s == "%s"`, k, v)
+		}
+	}
+	var orOf, andOf func(d int) string
+	orOf = func(d int) string {
+		n := 2 + r.intn(3)
+		alts := make([]string, n)
+		pos := r.intn(n)
+		for i := range alts {
+			switch {
+			case i == pos && r.chance(70):
+				alts[i] = fmt.Sprintf(`%s == "%s"`, k, target)
+			case d > 0 && r.chance(25):
+				alts[i] = orOf(d - 1)
+			case d > 0 && r.chance(15):
+				alts[i] = andOf(d - 1)
+			default:
+				alts[i] = valAtom()
+			}
+		}
+		return "(" + strings.Join(alts, " || ") + ")"
+	}
+	andOf = func(d int) string {
+		n := 2 + r.intn(2)
+		parts := make([]string, n)
+		for i := range parts {
+			switch {
+			case i > 0 && r.chance(65): // an OR as a non-first operand
+				parts[i] = orOf(d - 1)
+			case i == 0 && r.chance(25):
+				parts[i] = orOf(d - 1)
+			case r.chance(10):
+				parts[i] = genAtom(r) // something about another label
+			default:
+				parts[i] = valAtom()
+			}
+		}
+		return "(" + strings.Join(parts, " && ") + ")"
+	}
+	if r.chance(80) {
+		return andOf(d)
+	}
+	return orOf(d)
+}
+
+// genSel is what the streams use: a general expression or a same-label one.
+var lastSameLabel bool
+
+func genSel(r *rng, d int) string {
+	lastSameLabel = r.chance(40)
+	if lastSameLabel {
+		return genSameLabel(r, 1+r.intn(2))
+	}
+	return genExpr(r, d)
+}
+
 func genExpr(r *rng, d int) string {
 	if r.chance(20) {
 		focus = r.pick(keys)
@@ -343,7 +427,7 @@ func idxCase(r *rng) line {
 	// pool of selectors for this history (re-sending one exercises the "unchanged selector" path)
 	pool := make([]string, 3+r.intn(4))
 	for i := range pool {
-		pool[i] = genExpr(r, r.intn(3))
+		pool[i] = genSel(r, r.intn(3))
 	}
 	nops := 10 + r.intn(26)
 	// "collide" histories: several parents set the SAME label (ckey) to DIFFERENT values (parent p -> cvals[p]), the
@@ -641,14 +725,15 @@ func tagList(m map[string]bool) []string {
 // ---------------------------------------------------------------- stream 2: LabelRestrictions
 
 func restrCase(r *rng) line {
-	txt := genExpr(r, 1+r.intn(3))
+	txt := genSel(r, 1+r.intn(3))
+	sameLabel := lastSameLabel
 	sel := mustParse(txt)
 	lr := sel.LabelRestrictions()
 	rm, n := coqRmap(lr)
 	var maps, evals []string
 	anyTrue, anyFalse := false, false
 	var ms []map[string]string
-	for i := 0; i < 8; i++ {
+	for i := 0; i < 12; i++ {
 		L := genLabels(r, 3)
 		ms = append(ms, L)
 		e := sel.Evaluate(L)
@@ -661,6 +746,9 @@ func restrCase(r *rng) line {
 		evals = append(evals, coqBool(e))
 	}
 	tags := map[string]bool{"stream:restr": true}
+	if sameLabel {
+		tags["restr:same-label-and-or"] = true
+	}
 	if n > 0 {
 		tags["restr:non-empty"] = true
 	} else {
@@ -714,7 +802,7 @@ func riCase(r *rng) line {
 		switch k := r.intn(100); {
 		case k < 45:
 			id := r.intn(6)
-			sel := mustParse(genExpr(r, r.intn(3)))
+			sel := mustParse(genSel(r, r.intn(3)))
 			idx.AddSelector(id, sel)
 			live[id] = true
 			ops = append(ops, fmt.Sprintf("(RiAdd %d %s)", id, coqAst(sel.Root())))
@@ -804,7 +892,7 @@ func nvCase(r *rng) line {
 			label := r.pick(keys)
 			var res parser.LabelRestriction
 			if r.chance(70) {
-				lr := mustParse(genExpr(r, r.intn(3))).LabelRestrictions()
+				lr := mustParse(genSel(r, r.intn(3))).LabelRestrictions()
 				var ks []string
 				for k := range lr.All() {
 					ks = append(ks, k.Value())
@@ -995,7 +1083,7 @@ func npCase(r *rng) line {
 		case k < 58:
 			hist = append(hist, npOp{kind: "delpar", id: r.intn(nPars)})
 		default:
-			hist = append(hist, npOp{kind: "query", sel: genExpr(r, r.intn(3))})
+			hist = append(hist, npOp{kind: "query", sel: genSel(r, r.intn(3))})
 		}
 	}
 	return npLine(hist)
